@@ -44,6 +44,13 @@ fire("C20", "stored caller array written later through a field", "basegrid.Grid.
 fire("C20", "callback result of a weight callable clipped in place", "molgrid.MolGrid.__init__",
      ("sub", "molgrid.py", "            self._aim_weights = aim_weights(self._points, self._atcoords, atnums, self._indices)\n",
       "            self._aim_weights = aim_weights(self._points, self._atcoords, atnums, self._indices)\n            self._aim_weights[self._aim_weights < 0] = 0.0\n"))
+fire("C20", "attribute of a caller-supplied grid object re-assigned", "atomgrid.AtomGrid.__init__",
+     ("sub", "atomgrid.py", "        self._input_type_check(rgrid, center)\n        # assign & check stage\n",
+      "        self._input_type_check(rgrid, center)\n        rgrid.weights = np.abs(rgrid.weights)\n        # assign & check stage\n"))
+fire("C20", "positional out argument of a ufunc aliases the caller's array", "utils.convert_cart_to_sph",
+     ("sub", "utils.py", "    relat_pts = points - center\n", "    relat_pts = np.subtract(points, center, points)\n"))
+fire("C20", "nan_to_num(copy=False) on caller's values", "basegrid.Grid.moments",
+     ("sub", "basegrid.py", "        if func_vals.ndim > 1:\n", "        func_vals = np.nan_to_num(func_vals, copy=False)\n        if func_vals.ndim > 1:\n"))
 silent("C20", "copy() replaced by np.array()",
        ("sub", "atomgrid.py", "            points, weights = sphere_grid.points.copy(), sphere_grid.weights.copy()\n",
         "            points, weights = np.array(sphere_grid.points), np.array(sphere_grid.weights)\n"))
